@@ -545,10 +545,27 @@ static void parseEmit(void *inFrame, lltd_iface_state *st, void *iface_ctx) {
     lltd_emit_upper_header_t *emitHeader =
         (lltd_emit_upper_header_t *)((uint8_t *)lltdHeader + sizeof(*lltdHeader));
 
+    /*
+     * The receive buffer holds at most one MTU: a descriptor count that could
+     * not fit in a frame is malformed, and walking it would run off the buffer.
+     */
+    size_t mtu = 0;
+    if (lltd_port_get_mtu(iface_ctx, &mtu) != 0 || mtu == 0) {
+        mtu = 1500;
+    }
+    size_t maxDescs = 0;
+    if (mtu > sizeof(*lltdHeader) + sizeof(*emitHeader)) {
+        maxDescs = (mtu - sizeof(*lltdHeader) - sizeof(*emitHeader)) / sizeof(emitee_descs);
+    }
+    int numDescs = (int)lltd_ntohs(emitHeader->numDescs);
+    if ((size_t)numDescs > maxDescs) {
+        log_warning("parseEmit: %d descriptors cannot fit in a %zu byte frame, ignoring Emit", numDescs, mtu);
+        return;
+    }
+
     st->mapper_seq = lltd_ntohs(lltdHeader->seqNumber);
     set_active_mapper(st, &lltdHeader->realSource, &lltdHeader->frameHeader.source);
 
-    int numDescs = (int)lltd_ntohs(emitHeader->numDescs);
     uint16_t offsetEmitee = 0;
 
     for (int i = 0; i < numDescs; i++) {
